@@ -92,12 +92,20 @@ def start_mocking_observations(ctx, sym, mod):
         context_inputs = symexec.marker('context.inputs')
         _, raised = symexec.run(fd, sm, [Obj('context', inputs=context_inputs)], bound_self=me,
                                 what='Sandbox._start_mocking')
-        stack = stack_of(me, 'stdout')
+        stack = list(stack_of(me, 'stdout'))
         outs = [e for e in rec.named('patch') if e[1] and e[1][0] == 'sys.stdout']
         installs = [e for e in rec.named('mock_function') if e[1][:1] == ('input',)]
         started = [a for e in rec.named('_start_patches') for a in e[1]]
+        # a second execution that starts while this one is still active (an instructor's input function calling the
+        # student again, a student file importing another): what it hands to _start_patches
+        n_first = len(rec.named('_start_patches'))
+        created_first = list(created)     # (the nested execution appends to the harness's list too)
+        _, raised_nested = symexec.run(fd, sm, [Obj('context', inputs=symexec.marker('nested context.inputs'))],
+                                       bound_self=me, what='Sandbox._start_mocking')
+        started_nested = [a for e in rec.named('_start_patches')[n_first:] for a in e[1]]
         yield '[print=%r]' % (print_setting,), {
-            'raised': raised, 'stack': stack, 'created': created, 'started': started, 'rec': rec, 'me': me,
+            'raised': raised, 'stack': stack, 'created': created_first, 'started': started, 'rec': rec, 'me': me,
+            'started_nested': started_nested, 'raised_nested': raised_nested,
             'installs_tracker': raised is None and len(installs) == 1 and len(installs[0][1]) >= 2
             and installs[0][1][1] is tracker and any(e[1][:1] == (context_inputs,)
                                                       for e in rec.named('_track_inputs')),
